@@ -129,13 +129,28 @@ def to_contract(qualname, hs, vidx, command=None, extra_requires=(), check_wf=Tr
     for kind, outs in groups.items():
         cl = []
         if kind == "TransportError":
-            # outcomes distinguished by *which* write failed share pre-state guards: one disjunctive clause
-            alts = []
+            # outcomes distinguished by *which* write failed share pre-state guards: disjunctive clauses.
+            # Three of them, so that a failure is attributed to the property it belongs to:
+            #   state part (what C08 / C10 say about the buffers and markers), log part (C06), and their correlation (helper).
+            full, state, logs = [], [], []
             for o in outs:
-                parts = [f"old({o.guard})"] + [f"({c.text})" for c in o.post] + [log_text(o)]
-                alts.append("(" + " and ".join(parts) + ")")
-            tags = sorted({("C08" if "release" in o.label else "C10" if "request" in o.label else "C06") for o in outs})
-            cl.append(P("+".join(tags) + "/transport-error-cases", " or ".join(alts)))
+                g = f"old({o.guard})"
+                posts = [f"({c.text})" for c in o.post]
+                full.append("(" + " and ".join([g] + posts + [log_text(o)]) + ")")
+                state.append("(" + " and ".join([g] + posts) + ")")
+                logs.append("(" + " and ".join([g, log_text(o)]) + ")")
+            has_req = any("19" in l for o in outs for _, l in (o.log or []))
+            props = sorted({pid for o in outs for c in o.post for pid in c.id.split("/")[0].split("+") if pid.startswith("C") and c.tag == "property"})
+            for pid in props:
+                # projection on one property: only that property's state clauses are kept in every alternative
+                alts = []
+                for o in outs:
+                    keep = [f"({c.text})" for c in o.post if pid in c.id.split("/")[0].split("+")]
+                    alts.append("(" + " and ".join([f"old({o.guard})"] + keep) + ")")
+                cl.append(P(f"{pid}/transport-error-state", " or ".join(alts)))
+            cl.append(H("te/transport-error-state", " or ".join(state)))
+            cl.append(P(("C10" if has_req else "C06") + "/transport-error-log", " or ".join(logs)))
+            cl.append(H("te/transport-error-cases", " or ".join(full)))
         else:
             for o in outs:
                 g = f"old({o.guard})"
